@@ -140,12 +140,15 @@ func r152(c *Ctx, rule string) {
 	}
 	// every return is preceded by a response
 	for _, ret := range normalReturns(hpe) {
-		answered := false
+		// no path from the entry reaches this return without passing a response site
+		sites := map[ssa.Instruction]bool{}
 		for _, s := range c.errorSites() {
-			if s.fn == hpe && dominates(s.instr, ret) {
-				answered = true
+			if s.fn == hpe {
+				sites[s.instr] = true
 			}
 		}
+		_, silent := reach(hpe, nil, func(in ssa.Instruction) bool { return in == ssa.Instruction(ret) }, func(in ssa.Instruction) bool { return sites[in] })
+		answered := len(sites) > 0 && !silent
 		c.ob(rule, "handleProxyError/no-silent-return", ret.Pos(), answered, true, "every path must write a response")
 	}
 	// order: timeout classified before draining / default; too-large first irrelevant. Require timeout test dominates the draining test
